@@ -6,12 +6,14 @@
     concatenation, sequential reading composes, defaults < ini < -I is the dictionary of the three layers in order.
 (B) generated ref / ini files are run through the real code (drivers/refdrv.py): RefParser's public queries;
     skool2html.main with game*.ref, [Config] RefFiles, command line ref files, -c S/L, -W (observed from an
-    HtmlWriter subclass in init()), skoolkit.ini + -I (observed as writer.base / writer.case); --show-config of
+    HtmlWriter subclass in init(); GameDir as the directory that appears), skoolkit.ini + -I (observed as writer.base /
+    writer.case); --show-config of
     ten commands and the behaviour of skool2ctl / skool2asm under skoolkit.ini + -I; skool2html -R / -r.
     spec/ref/RefCases.tla reads the same files with the documented reader and compares (TLC decides).
 What the documentation does not state (trailing blanks, blank lines at the end of a section, a repeated plain section,
-order of game*.ref, order within a family, numbers that are not numbers, --show-config evaluated before -I) is
-counted as drift when skoolkit's present choice changes, never as a violation.
+order of game*.ref, order within a family, numbers that are not numbers) is counted as drift when skoolkit's present
+choice changes, never as a violation; three standing deviations from the literal text (--show-config printed before -I is
+applied, '[X+]' replacing a built-in text section, -c Config/... lines added twice) are counted under standing_deviations.
 """
 import json
 import multiprocessing as mp
@@ -93,6 +95,12 @@ def features(c, cnt):
             cnt['site: -c S/L'] += 1
         if any('HtmlWriterClass' in l for f in m['files'].values() for l in f):
             cnt['site: HtmlWriterClass in a ref file, overridden by -W'] += 1
+        if any(s.startswith('Config/GameDir=') for s in m['cli']):
+            cnt['site: -c Config/GameDir'] += 1
+        if any(l.startswith('GameDir=') for n in m['auto'] for l in m['files'][n]):
+            cnt['site: GameDir in an automatically read file'] += 1
+        elif any(l.startswith('GameDir=') for f in m['files'].values() for l in f):
+            cnt['site: GameDir only in a file that is not read automatically'] += 1
         if m['ini'] is not None:
             cnt['site: skoolkit.ini'] += 1
         if m['icli']:
@@ -114,7 +122,8 @@ REQUIRED = ['escaped ;;', 'escaped [[', 'escaped [[ line that looks like a heade
             'header + (new section)', 'plain header repeated', 'header with two or more colons', 'comment',
             'line before the first header', 'blank line', 'line ending in a backslash', 'line with trailing white space',
             'several files', 'site: several game*.ref', 'site: ref files on the command line',
-            'site: RefFiles in an automatically read file', 'site: -c Config/...', 'site: -c S/L',
+            'site: RefFiles in an automatically read file', 'site: -c Config/...', 'site: -c S/L', 'site: -c Config/GameDir', 'site: GameDir in an automatically read file',
+            'site: GameDir only in a file that is not read automatically',
             'site: HtmlWriterClass in a ref file, overridden by -W', 'site: skoolkit.ini', 'site: -I',
             'cfg: skoolkit.ini in ~/.skoolkit', 'cfg: -I', 'cfg: effective value seen in behaviour of skool2ctl', 'cfg: effective value seen in behaviour of skool2asm'] + ['cfg: ' + t for t in refdrv.TOOLS]
 
@@ -169,7 +178,7 @@ def run(tier):
     sd = seed()
     cbuild.repo_only()
     # (A) the specification itself
-    cfgs = ['RefFile_mcq.cfg', 'RefFile_mcq2.cfg'] if tier == 'quick' else ['RefFile_mcq.cfg', 'RefFile_mcq2.cfg', 'RefFile_mc.cfg', 'RefFile_mc2.cfg']
+    cfgs = ['RefFile_mcq.cfg', 'RefFile_mcq2.cfg'] if tier == 'quick' else ['RefFile_mcq.cfg', 'RefFile_mcq2.cfg', 'RefFile_mc.cfg', 'RefFile_mc2.cfg', 'RefFile_mc3.cfg']
     for cfg in cfgs:
         r = tlc.model_check('ref', 'RefFileMC', cfg, timeout=3000, coverage=(cfg == 'RefFile_mcq2.cfg'))
         rep.add_tlc(r, cfg)
@@ -217,8 +226,14 @@ def run(tier):
     if empty:
         raise MachineryError('E03 vacuity: no generated case has: %s' % empty)
     fails, drift = judge(rep, cases, wd, 'RefCases')
-    rep.drift = sum(v for k, v in drift.items() if k != 'drift:show-config-before-ini-options')
-    rep.extra['drift_classes'] = dict(drift)
+    # standing deviations of skoolkit from the literal reading of the documentation (named operators in the spec) are
+    # counted apart from drift proper = an observation that only a choice other than skoolkit's present one explains
+    standing = ('drift:show-config-before-ini-options', 'drift:append-replaces-built-in-section', 'drift:config-line-added-twice')
+    rep.drift = sum(v for k, v in drift.items() if k not in standing)
+    rep.extra['drift_classes'] = {k: v for k, v in drift.items() if k not in standing}
+    rep.extra['standing_deviations'] = {k[6:]: v for k, v in drift.items() if k in standing}
+    if rep.drift:
+        log('E03: drift %s' % rep.extra['drift_classes'])
     for c in cases[:2] + [x for x in cases if x['k'] == 'site'][:1] + [x for x in cases if x['k'] == 'cfg'][:1]:
         rep.sample({'key': c['key'], 'input': describe(c)[:1500]})
     for i, clause in sorted(fails.items()):
